@@ -62,11 +62,11 @@ func c18SweepApply(model ref.OpTable, g string) (outer, inner string, want []str
 func c18Alphabet(thorough bool) []string {
 	pris := []string{"0", "200", "700", "1200", "1201"}
 	specs := []string{"fx", "fy", "xfx", "xfy", "yfx", "xf", "yf", "foo"}
-	names := []string{"o1", "-", "[o1, o2]", "[o2, o1]", "[o1, '[]']", "'|'", "','"}
+	names := []string{"o1", "-", "[o1, o2]", "[o2, o1]", "[o1, '[]']", "'|'", "','", "'\\x0\\'"} // the last one is the atom whose internal value is 0
 	if thorough {
 		pris = []string{"-1", "0", "1", "200", "700", "1000", "1001", "1200", "1201", "foo", "_"}
 		specs = []string{"fx", "fy", "xfx", "xfy", "yfx", "xf", "yf", "foo", "1", "_"}
-		names = []string{"o1", "o2", "-", "','", "'|'", "'[]'", "'{}'", "[o1, o2]", "[o2, o1]", "[o1, '[]']", "[o1|_]", "[o1, 7]", "[o2, _]", "7", "_", "[o2, -]", "[]"}
+		names = []string{"'\\x0\\'", "[o1, '\\x0\\']", "o1", "o2", "-", "','", "'|'", "'[]'", "'{}'", "[o1, o2]", "[o2, o1]", "[o1, '[]']", "[o1|_]", "[o1, 7]", "[o2, _]", "7", "_", "[o2, -]", "[]"}
 	}
 	out := c18Sweeps()
 	for _, n := range names {
@@ -464,7 +464,7 @@ func c18Replay(b []byte) (string, string, bool) {
 func init() {
 	h.Register(&h.Check{
 		ID:            "C18",
-		Rule:          "explicit-state BFS over op/3 histories: alphabet = priorities {0,200,700,1200,1201} (thorough: {-1,0,1,200,700,1000,1001,1200,1201, a non-integer, unbound}) x specifiers {the seven, foo} (thorough: plus 1, unbound) x names {o1, -, [o1,o2], [o2,o1], [o1,'[]'], '|', ','} (thorough: plus o2, '[]', '{}', partial list, list with a number / an unbound member, a number, unbound, [o2,-], []); states = distinct reference tables; every history up to depth D, expanding each table state once. After EVERY transition: success/error as ISO prescribes, the complete table through current_op/3, current_op/3 in all 8 instantiation patterns for 6 probe names x all specifiers and priorities, reader probes (prefix/infix/postfix use parses iff defined, with the structure and associativity the specifier implies) and writer probes (operator notation iff defined). Distinct = table state.; the alphabet also holds 16 SWEEPS (an enumeration by current_op/3 in one of 4 instantiation patterns that stays open while every operator named o1/o2 it reaches is removed and other current_op/3 calls of 4 kinds run: every such operator is reached exactly once), and the search is repeated from a second root, a table that already holds user operators of three names and classes",
+		Rule:          "explicit-state BFS over op/3 histories: alphabet = priorities {0,200,700,1200,1201} (thorough: {-1,0,1,200,700,1000,1001,1200,1201, a non-integer, unbound}) x specifiers {the seven, foo} (thorough: plus 1, unbound) x names {o1, -, [o1,o2], [o2,o1], [o1,'[]'], '|', ',', the one-character atom NUL (internal value 0)} (thorough: plus o2, '[]', '{}', partial list, list with a number / an unbound member, a number, unbound, [o2,-], []); states = distinct reference tables; every history up to depth D, expanding each table state once. After EVERY transition: success/error as ISO prescribes, the complete table through current_op/3, current_op/3 in all 8 instantiation patterns for 6 probe names x all specifiers and priorities, reader probes (prefix/infix/postfix use parses iff defined, with the structure and associativity the specifier implies) and writer probes (operator notation iff defined). Distinct = table state.; the alphabet also holds 16 SWEEPS (an enumeration by current_op/3 in one of 4 instantiation patterns that stays open while every operator named o1/o2 it reaches is removed and other current_op/3 calls of 4 kinds run: every such operator is reached exactly once), and the search is repeated from a second root, a table that already holds user operators of three names and classes",
 		Explanation:   "state = the reference operator table (ISO 8.14.3: one definition per name and class, 0 removes, no infix+postfix of one name, ',' '|' '[]' '{}' rules, a failing call changes nothing); transition = one op/3 call on the real interpreter (history replayed on a fresh instance); the initial table is read from a fresh instance",
 		Assumptions:   []string{"which error a failing op/3 raises is not compared (C05 checks that it is an ISO error term), only that it fails and leaves the table unchanged", "priority 0 for a name whose conflicting class exists (ISO silent) may succeed or fail"},
 		Work:          c18Work,
